@@ -146,6 +146,12 @@ func scanAll(src string) (res scanResult) {
 		if tok.Type == token.EOF {
 			break
 		}
+		// `@` as the last rune: scanAt returns ILLEGAL without reading it, for ever (the parser stops at the
+		// first ILLEGAL token; this loop would not)
+		if n := len(raw); n > 0 && tok.Type == token.ILLEGAL && raw[n-1] == tok && tok.Text == "@" {
+			res.status = "err"
+			return
+		}
 		raw = append(raw, tok)
 	}
 	prevLine := 0
@@ -156,6 +162,13 @@ func scanAll(src string) (res scanResult) {
 			if hasCtl(strings.TrimRight(tok.Text, "\r")) {
 				res.oddCm = true
 			}
+			// round 4: comments are part of the token words (the driver's scanner model and its
+			// character-conservation monitor need them; the parser model filters them out)
+			ck := "COMMENT"
+			if tok.Type == token.DOCUMENT {
+				ck = "DOCUMENT"
+			}
+			res.words = append(res.words, fmt.Sprintf("%s|0|0|'%s", ck, esc(tok.Text)))
 			continue
 		}
 		if (tok.Type == token.STRING || tok.Type == token.RAW_STRING) && hasCtl(tok.Text) {
@@ -369,7 +382,22 @@ func parseDump(src string) (status string, words []string) {
 	return "ok", d.w
 }
 
+// formatSrc memoises the last text (the ops of one section all work on the same accumulated source).
+var fmtMemo struct {
+	ok          bool
+	src, st, out string
+}
+
 func formatSrc(src string) (status, out string) {
+	if fmtMemo.ok && fmtMemo.src == src {
+		return fmtMemo.st, fmtMemo.out
+	}
+	status, out = formatSrc0(src)
+	fmtMemo.ok, fmtMemo.src, fmtMemo.st, fmtMemo.out = true, src, status, out
+	return
+}
+
+func formatSrc0(src string) (status, out string) {
 	defer func() {
 		if p := recover(); p != nil {
 			status, out = "panic", ""
@@ -425,7 +453,7 @@ func observe(src string) string {
 	}
 	sc2 := scanAll(out)
 	ps2, a2 := parseDump(out)
-	fs2, out2 := formatSrc(out)
+	fs2, out2 := formatSrc0(out)
 	idem := "0"
 	if fs2 == "ok" && out2 == out {
 		idem = "1"
@@ -474,6 +502,116 @@ func observeEmpty() string {
 	return fmt.Sprintf("empty result=exit code=%d missing-input=%s", code, b01(strings.Contains(text, "missing input")))
 }
 
+
+// ---------------------------------------------------------------- round 4: several calls, several instances, format.File
+
+func parseAST(src string) (a *ast.AST, status string) {
+	defer func() {
+		if p := recover(); p != nil {
+			a, status = nil, "panic"
+		}
+	}()
+	p := parser.New("", src)
+	a = p.Parse()
+	if err := p.CheckErrors(); err != nil {
+		return nil, "err"
+	}
+	if a == nil {
+		return nil, "nil"
+	}
+	return a, "ok"
+}
+
+func fmtAST(a *ast.AST) (out string, status string) {
+	defer func() {
+		if p := recover(); p != nil {
+			out, status = "", "panic"
+		}
+	}()
+	var b bytes.Buffer
+	a.Format(&b)
+	return b.String(), "ok"
+}
+
+// observeAgain: ONE parse, the same AST formatted twice (Format rewrites the token nodes of the data types
+// in place - transfer2TokenNode - and is called several times per node inside one pass), compared with format.Source.
+func observeAgain(src string) string {
+	if len(src) == 0 {
+		return "na"
+	}
+	fs, out := formatSrc(src)
+	a, ps := parseAST(src)
+	if ps != "ok" {
+		return fmt.Sprintf("fmt=%s parse=%s", fs, ps)
+	}
+	o1, s1 := fmtAST(a)
+	o2, s2 := fmtAST(a)
+	st := "ok"
+	if s1 != "ok" || s2 != "ok" {
+		st = "panic"
+	}
+	return fmt.Sprintf("fmt=%s parse=ok ast=%s twice=%s src=%s", fs, st, b01(o1 == o2), b01(fs == "ok" && o1 == out))
+}
+
+// observeFile: format.File on a file with the source; compared with format.Source on the same text.
+func observeFile(t *testing.T, src string) string {
+	if len(src) == 0 {
+		return "na"
+	}
+	fs, out := formatSrc(src)
+	name := t.TempDir() + "/c20.api"
+	if err := os.WriteFile(name, []byte(src), 0o600); err != nil {
+		return "na"
+	}
+	st := "ok"
+	func() {
+		defer func() {
+			if p := recover(); p != nil {
+				st = "panic"
+			}
+		}()
+		if err := format.File(name); err != nil {
+			st = "err"
+		}
+	}()
+	got, err := os.ReadFile(name)
+	if err != nil {
+		return fmt.Sprintf("fmt=%s file=%s read=err", fs, st)
+	}
+	return fmt.Sprintf("fmt=%s file=%s same=%s kept=%s", fs, st, b01(fs == "ok" && string(got) == out), b01(string(got) == src))
+}
+
+// c20Other: a second, fixed program (every statement kind, comments) for the two-instance op.
+const c20Other = "syntax = \"v1\" // s\n\ninfo (\n\ttitle: \"t\" // c\n)\n\nimport \"x.api\"\n\ntype (\n\t// head\n\tOther {\n\t\tA []map[string]*int `json:\"a\"` // c\n\t\tBase\n\t}\n)\n\n@server (\n\tprefix: /v1-x/y\n\ttimeout: 3s\n)\nservice other-api {\n\t@doc \"d\"\n\t@handler h // c\n\tpost /a/:id-x (Other) returns ([]*Other)\n}\n"
+
+// observeInter: three parser instances alive at the same time (the source twice, the fixed program once), formatted
+// in the order C, B, A, B: an instance must not see what another one parsed or wrote (package-level state, shared
+// buffers).
+var c20OtherOut string
+
+func observeInter(src string) string {
+	if len(src) == 0 {
+		return "na"
+	}
+	fs, out := formatSrc(src)
+	if c20OtherOut == "" {
+		_, c20OtherOut = formatSrc0(c20Other)
+	}
+	wantB := c20OtherOut
+	a, pa := parseAST(src)
+	b, pb := parseAST(c20Other)
+	c, pc := parseAST(src)
+	if pa != "ok" || pb != "ok" || pc != "ok" {
+		return fmt.Sprintf("fmt=%s a=%s b=%s c=%s", fs, pa, pb, pc)
+	}
+	oc, _ := fmtAST(c)
+	ob1, _ := fmtAST(b)
+	oa, _ := fmtAST(a)
+	ob2, _ := fmtAST(b)
+	return fmt.Sprintf("fmt=%s a=ok b=ok c=ok sameA=%s sameC=%s sameB=%s", fs, b01(fs == "ok" && oa == out), b01(fs == "ok" && oc == out),
+		b01(ob1 == wantB && ob2 == wantB && wantB != ""))
+}
+
 func TestVerifC20EmptyChild(t *testing.T) {
 	if os.Getenv("C20_EMPTY_CHILD") != "1" {
 		t.Skip("child of TestVerifC20")
@@ -503,6 +641,12 @@ func TestVerifC20(t *testing.T) {
 				return "ok"
 			case "fmt":
 				return observe(src.String())
+			case "again":
+				return observeAgain(src.String())
+			case "file":
+				return observeFile(t, src.String())
+			case "inter":
+				return observeInter(src.String())
 			}
 			return "bad-op"
 		}
